@@ -17,5 +17,11 @@ open SamVerif.Useful
 #print axioms match_exact
 #print axioms checker_match_exact
 #print axioms checker_iflet_exact
+#print axioms checker_match_exact_src
+#print axioms checker_iflet_exact_src
+#print axioms useful_fuel_bound
+#print axioms cex_fuel_bound
+#print axioms checker_match_decided
+#print axioms checker_iflet_decided
 #print axioms inhabited_certificate
 #print axioms useful_iff_counterexample
